@@ -4,7 +4,7 @@ import nat
 RULE = ("one case = one seed = (generated or repo model) x (two instances driven through different seeded histories) x (6-20 seeded "
         "signatures [single bits, named unions, random subsets], or ALL 2^14 signatures in the 'exhaustive' stage for models with nq<40): "
         "size = slots written into a canary-padded buffer; set(get) into the other used instance restores those components and a whole-mjData "
-        "diff shows nothing else changed; extract = get of the sub-signature; copyState = get+set; then reset of a used and poisoned "
+        "diff shows nothing else changed; extract = get of the sub-signature; copyState = get+set; then mj_resetData and mj_resetDataDebug (seeded non-zero fill byte) of a used and poisoned "
         "instance = fresh instance on every array, and keyframe reset = reset + the keyframe's values; non-trivial = at least one "
         "signature checked; distinct = hash of (model summary, signature sequence)")
 ASSUME = [
